@@ -366,9 +366,16 @@ def check_held(recipe) -> list[Fail]:
         if res["exc"]:
             raise HarnessError(f"setup session failed: {res}")
         h = helper(hn)
-        if h.call({"op": "new", "path": path, "handles": {hn: {"ro": False, "buf": -1}, "idle": {"ro": True, "buf": -1, "plain": True}}}) is None:
+        drop = recipe.get("during") == "drop"
+        if h.call({"op": "new", "path": path, "handles": {hn: {"ro": False, "buf": -1}, "idle": {"ro": not drop, "buf": -1, "plain": True, "keep_atexit": drop}}}) is None:
             raise HarnessError("helper stalled while constructing a handle")
         held_mode = recipe["held"]
+        if drop:
+            # history of the holder-to-be: a request through its OTHER handle timed out earlier (this process was inside a session then)
+            with local.writing(timeout=cc.TIMEOUT):
+                rep = h.call({"op": "try_session", "h": "idle", "timeout": 0.05})
+            if rep is None or rep.get("entered"):
+                return [Fail("session-entered-while-another-process-holds-a-writing-session", "the helper's request with timeout 0.05 got in while this process was inside writing()")]
         other = None
         if recipe.get("during") == "other_exits":
             # a third, short-lived process of its own: it has constructed a handle of the library BEFORE the holder's session began and
@@ -389,6 +396,7 @@ def check_held(recipe) -> list[Fail]:
                 raise HarnessError("the short-lived process never constructed its handle")
         h.send({"op": "session_hold", "h": hn, "mode": held_mode, "key": "heldkey", "val": (b"H" * 33).hex(), "at_file": at_file, "gate_file": gate_file,
                 "during": recipe.get("during") if recipe.get("during") != "other_exits" else None, "idle": "idle"})
+        # ("drop": inside its session the holder lets go of that other handle and collects garbage)
         t0 = time.time()
         while not os.path.exists(at_file) and time.time() - t0 < 30:
             time.sleep(0.01)
@@ -535,7 +543,7 @@ def enum_held(tier, shard, nshards):
             for timeouts in ([0], [1], [2], [0, 1, 2], [3]):
                 if tier == "quick" and timeouts == [3] and abuf:
                     continue
-                for during in (None, "unpickle", "deepcopy", "other_exits"):
+                for during in (None, "unpickle", "deepcopy", "other_exits", "drop"):
                     if during and timeouts != [0, 1, 2]:
                         continue
                     if i % nshards == shard:
@@ -695,7 +703,7 @@ LEGS = [
     Leg(
         "owned", check_owned, classify_owned, enumerate=enum_owned, exhaustive=True,
         shards={"quick": 16, "thorough": 32},
-        rule="ALL sequences of k<=2 (quick: 3 handles) / k<=3 (thorough: 4 handles) sessions over 15 session kinds (read, write1, write2, read-an-existing-record-then-write, fail in body by Exception / KeyboardInterrupt / SystemExit / encoder / flush-time backend write / end_write / reader body / end_read / begin_write / begin_read); lock probed from a fresh process after every session; non-trivial = failing session followed by a session on another handle (or by the probe process), or a stale handle writing after another writer",
+        rule="ALL sequences of k<=2 (quick: 3 handles) / k<=3 (thorough: 4 handles) sessions over 16 session kinds (read, write1, write2, read-an-existing-record-then-write, fail in body by Exception / KeyboardInterrupt / SystemExit / encoder / flush-time backend write / stream write inside UKVFile.put / end_write / reader body / end_read / begin_write / begin_read); lock probed from a fresh process after every session; non-trivial = failing session followed by a session on another handle (or by the probe process), or a stale handle writing after another writer",
     ),
     Leg(
         "owned_rand", check_owned, classify_owned, strategy=strat_owned,
@@ -713,7 +721,7 @@ LEGS = [
     ),
     Leg(
         "held", check_held, lambda r: (True, [f"holder={'writer' if r['held'] == 'w' else 'reader'}", "timeouts=" + ",".join(str([0, 0.0, 0.05, 0.3][t]) for t in r["timeouts"]), f"holder_copies_an_idle_handle_inside_its_session={r.get('during')}"]), enumerate=enum_held, exhaustive=True, shards={"quick": 8, "thorough": 8},
-        rule="harness-owned overlap: a helper process sits inside a writing (or reading) session while this process asks for sessions with timeout 0, 0.0, 0.05, 0.3: every request that the holder excludes must end in TimeoutError, never inside the session - also when the holder, inside its session, unpickles / deep-copies an idle handle of the same library (no session on the copy), or when a third process that had constructed a handle earlier exits normally meanwhile; "
+        rule="harness-owned overlap: a helper process sits inside a writing (or reading) session while this process asks for sessions with timeout 0, 0.0, 0.05, 0.3: every request that the holder excludes must end in TimeoutError, never inside the session - also when the holder, inside its session, unpickles / deep-copies an idle handle of the same library (no session on the copy), when a third process that had constructed a handle earlier exits normally meanwhile, or when the holder lets go of another handle whose last request had timed out; "
              "after the gate opens a session proceeds and the contents are complete",
     ),
     Leg(
